@@ -1,7 +1,7 @@
 (* C14 - File data read and written through client and Ufs is exact.
    Property theorems only (proved in Clnt/IOProofs.v). *)
 From Coq Require Import NArith List Bool.
-From V9 Require Shape.ShapeLib Shape.PUfs14.
+From V9 Require Shape.ShapeLib Shape.PUfs14 Shape.PViews Recv.Views.
 From V9 Require Import Lib.GoSem Lib.Bytes Gen.Consts Clnt.IO Clnt.IOProofs.
 Import ListNotations.
 Local Open Scope N_scope.
@@ -85,3 +85,21 @@ Proof. unfold sane, c_IOHDRSZ, u32max. vm_compute. repeat split; discriminate. Q
 Theorem C14_source_reads_positionally : ShapeLib.ufs_reads_positionally = true.
 Proof. exact PUfs14.ufs_reads_positionally_ok. Qed.
 Print Assumptions C14_source_reads_positionally.
+
+
+(* ---- the receive buffer as memory (Recv/Views.v): Unpack does not copy, what is handed on keeps slices into
+   the receive buffer. For any reads, deliveries and reallocations no byte that arrives later overwrites a
+   delivered message; compacting inside the buffer (seeded changes C09c, C13a, C14a) is refuted; and in the
+   CURRENT source every copy in a receive loop goes into a freshly allocated buffer ---- *)
+Theorem C14_delivered_messages_never_overwritten : forall ls c s,
+  Views.run false (Views.init c) ls = Some s -> Views.clobbered s = false.
+Proof. exact Views.delivered_messages_never_overwritten. Qed.
+Print Assumptions C14_delivered_messages_never_overwritten.
+
+Theorem C14_compaction_refuted : exists ls s, Views.run true (Views.init 64) ls = Some s /\ Views.clobbered s = true.
+Proof. exact Views.compaction_refuted. Qed.
+Print Assumptions C14_compaction_refuted.
+
+Theorem C14_source_never_compacts_a_receive_buffer : ShapeLib.recv_never_compacts = true.
+Proof. exact PViews.recv_never_compacts_ok. Qed.
+Print Assumptions C14_source_never_compacts_a_receive_buffer.
